@@ -403,8 +403,8 @@ func judge(in []pobj, manifest string, hooks []hookView, uninst []string, uninst
 		if ok {
 			v, _ := orderCheck(actM, del, uninstallOrderSpec, func(o pobj) string { return o.Ident })
 			switch v {
-			case "rank":
-				add("uninstall-order:rank", "uninstall order [%s] for manifest [%s]", names(del), names(actM))
+			case "rank", "kind-not-contiguous":
+				add("uninstall-order:"+v, "uninstall order [%s] for manifest [%s]", names(del), names(actM))
 			case "within-kind":
 				info.UninstallWithinKindMoved = true // the statement only promises the kind order for uninstall
 			}
@@ -415,12 +415,23 @@ func judge(in []pobj, manifest string, hooks []hookView, uninst []string, uninst
 
 // orderCheck: got must be a permutation of orig (already established) with
 // non-decreasing rank and, per kind, the objects in orig's order.
-// Returns "" | "rank" | "within-kind", and whether got differs from orig at all.
+// The resources of one kind must also be contiguous (one run per kind): the
+// client only separates consecutive runs of a kind, so an order like Widget,
+// Gadget, Widget cannot satisfy "all resources of one kind finish before the
+// next kind starts". Which of two unknown kinds comes first is not judged.
+// Returns "" | "rank" | "kind-not-contiguous" | "within-kind", and whether got differs from orig at all.
 func orderCheck(orig, got []pobj, order []string, key func(pobj) string) (string, bool) {
 	for i := 0; i+1 < len(got); i++ {
 		if rankIn(order, got[i].Kind) > rankIn(order, got[i+1].Kind) {
 			return "rank", true
 		}
+	}
+	var kinds []string
+	for _, o := range got {
+		kinds = append(kinds, o.Kind)
+	}
+	if !contiguousRuns(kinds) {
+		return "kind-not-contiguous", true
 	}
 	perKind := func(os []pobj) map[string][]string {
 		m := map[string][]string{}
@@ -442,4 +453,18 @@ func orderCheck(orig, got []pobj, order []string, key func(pobj) string) (string
 		}
 	}
 	return "", moved
+}
+
+// contiguousRuns reports whether every value occupies one contiguous run of the sequence.
+func contiguousRuns(seq []string) bool {
+	closed := map[string]bool{}
+	for i, k := range seq {
+		if i > 0 && seq[i-1] != k {
+			closed[seq[i-1]] = true
+		}
+		if closed[k] {
+			return false
+		}
+	}
+	return true
 }
